@@ -1,6 +1,7 @@
 import os, sys, hashlib, re, json
 from vf import Check, Stream, VERIF, BUILD, REPO, sh, log, first_diff
 
+QUICK_MUL = 8   # stream sizes of the quick tier (thorough: ten times as many)
 NF = 8  # futures a generated case uses at most (harness/driver allow 64)
 
 
@@ -52,6 +53,51 @@ def gen_script(rng, ncl, nops, nf=NF, work3=0.06, pauses=0.1, long_pause=0.0, wo
                 ops.append('c %d pause %d' % (c, rng.randrange(4)))
     for f in sorted(pending3):
         ops.append('c %d abort %d' % (f % ncl, f))
+    return ops
+
+
+# Targeted-delay profiles: `gate rule` lines (harness/future.cpp, "gates") with the action `sleep`:
+# a thread of the given role sleeps <us> microseconds, with probability <permille>/1000, at a point
+# identified by (pre|post|wake|bcast, object, operand, result).  Model and spec read them as pauses.
+PROFILES = {
+    # worker before FastSignal::reset()'s swap / between the swap and the inner Signal::reset();
+    # client before it counts the pushed job
+    'sleepwake': ['w pre enq 0 * 1000000 sleep 300 250', 'w post enq 0 1 1000000 sleep 300 350',
+                  '* pre pushed * * 1000000 sleep 150 200'],
+    # worker before the swap of Future::_state (after the call) and after the broadcast of a
+    # Future's signal (the end of Future<void>::set())
+    'handshake': ['w pre fut * * 1000000 sleep 250 500', 'w bcast fut * * 1000000 sleep 250 500'],
+    # queue: between claiming a ticket (CAS on _head/_tail) and publishing the slot
+    'publish': ['* pre nhead * * 1000000 sleep 120 300', '* pre ntail * * 1000000 sleep 120 300',
+                '* post tail * * 1000000 sleep 60 150', '* post head * * 1000000 sleep 60 150'],
+}
+
+
+def profile_lines(name):
+    return ['c 0 gate rule %d %s' % (i, r) for i, r in enumerate(PROFILES[name])]
+
+
+def gen_handshake(rng, ncl, ncalls, nf=NF):
+    """start / join / check / get in close succession: what a caller sees right after join() returned."""
+    ops = []
+    a = rng.randrange(1000)
+    for _ in range(ncalls):
+        c = rng.randrange(ncl)
+        fs = [f for f in range(nf) if f % ncl == c]
+        f = rng.choice(fs)
+        a += 1 + rng.randrange(7)
+        ops.append('c %d start %d %d %d' % (c, f, a, rng.choice([0, 0, 1])))
+        k = rng.randrange(5)
+        if k == 0:
+            ops += ['c %d join %d' % (c, f), 'c %d check %d' % (c, f)]
+        elif k == 1:
+            ops += ['c %d get %d' % (c, f)]
+        elif k == 2:
+            ops += ['c %d join %d' % (c, f), 'c %d get %d' % (c, f), 'c %d check %d' % (c, f)]
+        elif k == 3:
+            ops += ['c %d get %d' % (c, f), 'c %d check %d' % (c, f)]
+        else:
+            ops += ['c %d abort %d' % (c, f), 'c %d join %d' % (c, f), 'c %d check %d' % (c, f)]
     return ops
 
 
@@ -121,7 +167,7 @@ class C10(Check):
 
     def streams(self, tier, rng):
         thorough = tier == 'thorough'
-        mul = 6 if thorough else 1
+        mul = QUICK_MUL * 10 if thorough else QUICK_MUL
         out = []
         sd = lambda: rng.randrange(1, 1 << 30)
         # 1. one client, sequential use (what TestFuture does, plus abort / restart / result reuse)
@@ -168,6 +214,30 @@ class C10(Check):
             cases.append([cfg_line(ncl=ncl, lazy=1, perturb=rng.choice([0, 1, 2, 3]), seed=sd())]
                          + gen_script(rng, ncl, rng.randrange(6, 30)))
         out.append(Stream('lazy', cases, note='default pool created under the spin lock by racing first starts'))
+        # 6. targeted delays at the sleep/wake handshake of the workers
+        cases = []
+        for i in range(30 * mul):
+            ncl = rng.choice([1, 1, 2, 3])
+            cases.append([cfg_line(cmin=rng.choice([0, 0, 1]), cmax=rng.choice([3, 3, 4]), q=rng.choice([2, 4, 8]), ncl=ncl,
+                                   scale=rng.choice([1, 1000, 5000]), perturb=rng.choice([0, 0, 1]), seed=sd())]
+                         + profile_lines('sleepwake')
+                         + gen_script(rng, ncl, rng.randrange(8, 40), pauses=0.3, long_pause=0.2, works=(0, 0, 0, 1)))
+        out.append(Stream('sleepwake', cases, note='workers delayed before/inside FastSignal::reset(), clients before counting the job'))
+        # 7. targeted delays around the completion of a call; the caller looks right after join()
+        cases = []
+        for i in range(30 * mul):
+            ncl = rng.choice([1, 1, 2])
+            cases.append([cfg_line(cmin=rng.choice([0, 1]), cmax=3, q=rng.choice([2, 4]), ncl=ncl, perturb=0, seed=sd())]
+                         + profile_lines('handshake') + gen_handshake(rng, ncl, rng.randrange(4, 14)))
+        out.append(Stream('handshake', cases, note='worker delayed before the state swap and after the signal of Future::set(); join/check/get right after'))
+        # 8. targeted delays between claiming and publishing a queue slot, small queues
+        cases = []
+        for i in range(30 * mul):
+            ncl = rng.choice([2, 3, 4])
+            cases.append([cfg_line(cmin=rng.choice([0, 2]), cmax=rng.choice([3, 4]), q=rng.choice([1, 2, 2, 4]), ncl=ncl,
+                                   perturb=rng.choice([0, 1]), seed=sd())]
+                         + profile_lines('publish') + gen_script(rng, ncl, rng.randrange(10, 50), works=(0, 0, 1)))
+        out.append(Stream('publish', cases, note='pushers/poppers delayed between ticket claim and slot publication, queue capacity 1-4'))
         return out
 
 
